@@ -1,1 +1,2 @@
+pub mod scan;
 pub mod stream;
